@@ -619,6 +619,8 @@ M('C08', 'notation-offset-reads-del-short', SS, '        self.flags = packet[:1]
   '        self.flags = packet[:1]\n        nlen = self.bytes_to_int(packet[4:6])\n        vlen = self.bytes_to_int(packet[6:8])\n        del packet[:7]\n', 'C08.a')
 M('C08', 'dispatch-factory-gets-root-class', TY, '    def __call__(cls, packet=None):  # NOQA\n        def _makeobj(cls):\n            obj = object.__new__(cls)\n            obj.__init__()\n            return obj\n\n',
   '    @staticmethod\n    def _makeobj(cls):\n        obj = object.__new__(cls)\n        obj.__init__()\n        return obj\n\n    def __call__(cls, packet=None):  # NOQA\n', 'C08.g', more=[(TY, '            obj = _makeobj(ncls)\n', '            obj = MetaDispatchable._makeobj(rcls)\n'), (TY, '            obj = _makeobj(cls)\n', '            obj = MetaDispatchable._makeobj(cls)\n')])
+M('C08', 'skesk-remainder-minus-1', PK, '        ctend = self.header.length - len(self.s2k)\n',
+  '        ctend = self.header.length - len(self.s2k) - 1\n', 'C08.d')
 M('C08', 'onepass-pop-reads-swapped', PK, '        self.sigtype = packet[0]\n        del packet[0]\n\n        self.halg = packet[0]\n        del packet[0]\n\n        self.pubalg = packet[0]\n        del packet[0]\n\n        self.signer = packet[:8]\n        del packet[:8]\n\n        self.nested = (packet[0] == 1)\n        del packet[0]',
   '        self.sigtype = packet.pop(0)\n        self.pubalg = packet.pop(0)\n        self.halg = packet.pop(0)\n\n        self.signer = packet[:8]\n        del packet[:8]\n\n        self.nested = (packet.pop(0) == 1)', 'C08.c')
 M('C08', 'uri-bytes-constructor-utf16', SS, '        _bytes += self.uri.encode()\n        return _bytes',
@@ -745,6 +747,8 @@ T('C08', 'twin-pkesk-pkalg-get', PK, '        ct = _c.get(self._pkalg, None)\n  
   '        ctcls = _c.get(self._pkalg)\n        if ctcls is None:\n            self.ct = None\n\n        else:\n            self.ct = ctcls()\n', more=[(PK, "        _bytes += self.ct.__bytearray__() if self.ct is not None else b'\\x00' * (self.header.length - 10)\n", "        if self.ct is not None:\n            _bytes += self.ct.__bytearray__()\n\n        else:\n            _bytes += b'\\x00' * (self.header.length - 10)\n")])
 T('C08', 'twin-hashed-area-peek-spelling', FL, '        hl = self.bytes_to_int(packet[:2])\n        hashed_raw = packet[:2 + hl]\n        del packet[:2]\n',
   '        count_octets = packet[:2]\n        hl = self.bytes_to_int(count_octets)\n        area_end = hl + 2\n        hashed_raw = packet[:area_end]\n        del packet[:2]\n')
+T('C08', 'twin-skesk-remainder-locals', PK, '        ctend = self.header.length - len(self.s2k)\n        self.ct = packet[:ctend]\n        del packet[:ctend]\n',
+  '        s2k_len = len(self.s2k)\n        total = self.header.length\n        self.ct = packet[:total - s2k_len]\n        del packet[:total - s2k_len]\n')
 T('C08', 'twin-onepass-pop-reads', PK, '        self.sigtype = packet[0]\n        del packet[0]\n\n        self.halg = packet[0]\n        del packet[0]\n\n        self.pubalg = packet[0]\n        del packet[0]\n\n        self.signer = packet[:8]\n        del packet[:8]\n\n        self.nested = (packet[0] == 1)\n        del packet[0]',
   '        self.sigtype = packet.pop(0)\n        self.halg = packet.pop(0)\n        self.pubalg = packet.pop(0)\n\n        self.signer = packet[:8]\n        del packet[:8]\n\n        self.nested = (packet.pop(0) == 1)')
 T('C08', 'twin-onepass-setattr-loop', PK, '        self.sigtype = packet[0]\n        del packet[0]\n\n        self.halg = packet[0]\n        del packet[0]\n\n        self.pubalg = packet[0]\n        del packet[0]\n\n        self.signer = packet[:8]\n        del packet[:8]\n\n        self.nested = (packet[0] == 1)\n        del packet[0]',
